@@ -101,14 +101,14 @@ Definition store_ok (s : fstore) : Prop :=
 
 (* ---------------------------------------------------------------- reference facts about codec.rs (compared with gen/CodecTables.v) *)
 Local Open Scope string_scope.
-(* locals are renamed by rs2coq in order of first binding (_v1 = the parsed response, _v2 = the consumed length,
-   _v5 = the frozen frame bytes), so that renaming a local variable of decode is not a change *)
+(* decode is read in let-normal form (a local used once is replaced by its definition) and the remaining locals are
+   renamed by rs2coq in order of first binding (_v1 = the parsed response, _v2 = the consumed length), so that renaming
+   a local of decode or naming a sub-expression is not a change *)
 Definition ref_decode_ops : list string :=
   ["imap_proto::Response::from_bytes(buf)";
    "unsafe { mem::transmute::<Response<'_>, Response<'static>>(_v1) }";
    "buf.len()";
-   "let _v5 = buf.split_to(_v2).freeze()";
-   "ResponseData { raw: _v5, response: _v1 }"].
+   "Ok(Some(ResponseData { raw : buf.split_to(_v2).freeze(), response : _v1 }))"].
 Definition ref_frame_fields : list (string * string * string) :=
   [("raw", "private", "Bytes"); ("response", "private", "Response<'static>")].
 
